@@ -29,6 +29,14 @@ CHECKS["C03"] = dict(
    note="Partial: exactly-once is proved over the ownership model; absence of out-of-bounds/use-after-free in real memory is not modelled. "
         "Trusted: Coq kernel+vm_compute, hand-written model, generator, Rust oracle.",
    design="§5 C03")
+CHECKS["C17"] = dict(
+   text="Proof: Config/Model.v transcribes Config::set/get_overridden/read_file and the per-language setters; C17_effective (for every finite write "
+        "sequence the effective shared settings of a language are the last language-scoped write, else the last shared write), C17_source_order "
+        "(file < CLI < attribute), C17_scoped_only_that_language, C17_kebab_snake. Tied to the code by driving the public Config API exactly as "
+        "main.rs/gen() do on exhaustive source assignments and seeded mixes, plus runs of the real CLI (kotlin package / Native.load name, nanobind "
+        "module name, acceptance of references in callbacks), each compared with the model inside Coq.",
+   note="Trusted: Coq kernel+vm_compute; hand-written model; keys split at the first '.' by the generator; toml crate and heck; python/Rust oracle glue.",
+   design="§5 C17")
 NOT_YET = {
 }
 ALL = [f"C{i:02d}" for i in range(1, 18)]
